@@ -356,6 +356,9 @@ func bvhCase(d bvhDesc) (c hx.Case) {
 
 func main() {
 	run := hx.ParseFlags("C16", "Check.C16")
+	if run.Tier == "thorough" {
+		run.ShardMax = 48 // smaller shards: the big sets make a shard's coqc process heavy
+	}
 	tot := octStats{}
 	addOct := func(d setDesc) {
 		c, st := octCase(d)
